@@ -53,8 +53,8 @@ ASSUMPTIONS = ['Gauss quadrature of the degree chosen per geometry (2 affine map
                'periodic axes are generated with >= 3 elements (1- and 2-element periodic axes make an element its own / a double neighbour)']
 import os
 # C10_NCASES / C10_BUDGET: development overrides only (planted-break runs on a loaded machine)
-NCASES = {'quick': int(os.environ.get('C10_NCASES', 700)), 'thorough': int(os.environ.get('C10_NCASES', 8000))}
-MINCASES = {'quick': 300, 'thorough': 2500}   # below this many histories the run is inconclusive (deadline hit on a loaded machine)
+NCASES = {'quick': int(os.environ.get('C10_NCASES', 700)), 'thorough': int(os.environ.get('C10_NCASES', 5000))}
+MINCASES = {'quick': 300, 'thorough': 2000}   # below this many histories the run is inconclusive (deadline hit on a loaded machine)
 BUDGET_S = {'quick': int(os.environ.get('C10_BUDGET', 100)), 'thorough': int(os.environ.get('C10_BUDGET', 1500))}
 CHUNK = 10
 EVERY3D = {'quick': 10, 'thorough': 5}
@@ -401,6 +401,9 @@ class Monitors:
             if neg is not None and len(neg2) == len(neg) and tuple(neg2.references) == tuple(neg.references) and \
                     (len(neg) == 0 or tuple(neg2.transforms) == tuple(neg.transforms)):
                 self.res.count('negated_trim_identical_to_complement')   # same elements, same references: nothing new to integrate
+            elif self.degenerate_levelset(base, info):
+                # the level set vanishes on >= 2 vertices of an element in which it also changes sign: nutils keeps the zero edge on both sides
+                self.res.count('negated_trim_skipped_degenerate_levelset')
             else:
                 self.res.count('negated_trim_differs_from_complement')
                 parts.append(('trim(-levelset)', neg2))
@@ -432,7 +435,7 @@ class Monitors:
                     self.fail('trim partitions the measure', f'an element of a trimmed part is not an element of the base: {e}')
             # the cut, seen from both sides
             if len(pos) and len(N):
-                self.cut(pos, N, label, name, geom, geom0, s)
+                self.cut(base, pos, N, label, name, geom, geom0, s)
             # union restores the base
             if len(pos) and len(N) and label == 'base - pos':
                 try:
@@ -449,6 +452,19 @@ class Monitors:
                         raise
                     self.res.count('unavailable/trim_union')
 
+    def degenerate_levelset(self, base, info):
+        try:
+            smp = base.sample('vertex', info['maxrefine'])
+            lv = smp.eval(info['levelset'])
+            for k in range(len(base)):
+                l = lv[smp.getindex(k)]
+                if (l == 0).sum() >= 2 and (l > 0).any() and (l < 0).any():
+                    return True
+            return False
+        except Exception as e:
+            self.res.add('unavailable_signatures', 'levels: ' + topogen.signature(e))
+            return True
+
     def cut_integrals(self, part, name, geom, geom0):
         from nutils import function
         D = geom.shape[0]
@@ -464,21 +480,43 @@ class Monitors:
                 funcs += [n * J, geom[:, None] * n[None, :] * J]
             if len(g):
                 self.res.count('integrals')
-                return len(g), [numpy.asarray(v) for v in g.integrate(funcs, degree=self.bench.deg)]
-            return 0, [numpy.zeros(()), numpy.zeros(D)] + ([numpy.zeros(D), numpy.zeros((D, D))] if full else [])
+                return len(g), [numpy.asarray(v) for v in g.integrate(funcs, degree=self.bench.deg)], g, funcs
+            return 0, [numpy.zeros(()), numpy.zeros(D)] + ([numpy.zeros(D), numpy.zeros((D, D))] if full else []), g, funcs
         return self.bench._get('cut:' + name, part, geom, fn)
 
-    def cut(self, pos, neg, label, name, geom, geom0, s):
+    def cut_without_slivers(self, base, part, other, c):
+        """group integrals restricted to the pieces owned by base elements that are present in BOTH parts.  Reference.slice documents that a
+        mosaic may have zero or full volume: then one part keeps the whole element with a sliver of its original face relabelled as 'trimmed'
+        while the zero-volume counterpart is dropped from the other part; such pieces are not part of the shared cut."""
+        n, vals, g, funcs = c
+        if not n:
+            return vals, 0
+        both = set(int(i) for i in parents(base, other, exact=True)[0]) if len(other) else set()
+        keep = numpy.array([int(base.transforms.index_with_tail(t)[0]) in both for t in g.transforms], dtype=bool)
+        self.res.count('integrals')
+        ev = g.integrate_elementwise(funcs, degree=self.bench.deg)
+        return [numpy.asarray(v)[keep].sum(0) for v in ev], int((~keep).sum())
+
+    def cut(self, base, pos, neg, label, name, geom, geom0, s):
         D = geom.shape[0]
         full = pos.ndims == D
         cp, cn = self.cut_integrals(pos, name, geom, geom0), self.cut_integrals(neg, name, geom, geom0)
         if cp is None or cn is None:
             return
-        (np_, vp), (nn_, vn) = cp, cn
+        vp, vn = cp[1], cn[1]
         self.res.count('monitor/trim_cut')
-        if np_ or nn_:
+        if cp[0] or cn[0]:
             self.res.count('monitor/trim_cut_nonempty')
         sc = self.scale(s, vp[0], vn[0])
+        if tolerance.compare(numpy.asarray(vp[0], dtype=float), numpy.asarray(vn[0], dtype=float), scale=sc, check_kind=False)[0] != tolerance.PASS:
+            try:
+                vp, np_ = self.cut_without_slivers(base, pos, neg, cp)
+                vn, nn_ = self.cut_without_slivers(base, neg, pos, cn)
+                if np_ + nn_:
+                    self.res.count('cut_sliver_pieces_excluded', np_ + nn_)
+                    self.res.count('trims_with_cut_slivers')
+            except (Unavailable, ValueError):
+                pass
         m = 'trimmed boundaries share the cut'
         self.cmp(m, f'measure of group {name!r}: pos vs {label}', vp[0], vn[0], sc)
         if full:
